@@ -37,3 +37,6 @@ def lemma_frictionless(tier):
 
 
 LEMMAS = [lemma_frictionless]
+
+from shell import runtime as _runtime
+SHELL = [_runtime.contracts_at_run_time]
